@@ -413,6 +413,81 @@ func c10LoadFaults(chk *fw.Check) (evals int) {
 	return
 }
 
+// c10RefreshFaults: the same single-fault enumeration over a refresh of a list in force: whatever operation of the
+// refresh fails, nothing panics, the refresh ends, and afterwards (fault gone) the list is still answered from - the
+// listed certificate is rejected, the clean one accepted (crl_cdp_strict on: a list is in force) - and the next refresh
+// works.
+func c10RefreshFaults(chk *fw.Check) (evals int) {
+	c := newC10Cast()
+	url := c10CDPSets[0][0]
+	for _, disk := range []bool{false, true} {
+		run := func(dieAt int) (n int, fired, panicked string, vl, vc, vl2 Verdict) {
+			res := seqWorld(func() {
+				w := NewCW(CWOpt{Disk: disk, SigMode: config.SignatureValidationModeVerify, Strict: true})
+				defer os.RemoveAll(w.Dir)
+				if err := w.Provision(); err != nil {
+					panic(err)
+				}
+				vsched.Drain()
+				w.Net.Serve(url, "good", c.good)
+				if v := w.Lookup(c.listed[0], world.Chain(c.listed[0], c.p.CA, c.p.Root)); !v.Revoked {
+					panic("c10 refresh faults: setup " + v.String() + v.Err)
+				}
+				vsched.EffectHook = func(kind, arg string) error {
+					n++
+					if n == dieAt {
+						fired = kind
+						return errors.New("injected: " + kind + " failed")
+					}
+					return nil
+				}
+				func() {
+					defer func() {
+						if r := recover(); r != nil {
+							if fmt.Sprintf("%T", r) == "vsched.abortSentinel" {
+								panic(r)
+							}
+							panicked = fmt.Sprint(r)
+						}
+					}()
+					w.Chk.VerifUpdateCRLs(true)
+				}()
+				vsched.EffectHook = nil
+				vsched.Drain()
+				vl = w.Lookup(c.listed[0], world.Chain(c.listed[0], c.p.CA, c.p.Root))
+				vc = w.Lookup(c.clean[0], world.Chain(c.clean[0], c.p.CA, c.p.Root))
+				w.Chk.VerifUpdateCRLs(true)
+				vsched.Drain()
+				vl2 = w.Lookup(c.listed[0], world.Chain(c.listed[0], c.p.CA, c.p.Root))
+				w.Chk.Cleanup()
+			})
+			vsched.EffectHook = nil
+			if res.Verdict != vsched.OK && panicked == "" {
+				panicked = res.Verdict.String() + ": " + firstLines(res.Detail, 3)
+			}
+			return
+		}
+		total, _, _, _, _, _ := run(0)
+		for k := 1; k <= total; k++ {
+			_, kind, panicked, vl, vc, vl2 := run(k)
+			evals++
+			label := fmt.Sprintf("refresh of a list in force with an injected %s error (effect point %d of %d, %s backend)", kind, k, total, be(disk))
+			switch {
+			case panicked != "":
+				chk.Violation("C10|panic-in-refresh-fault|"+kind+"|"+be(disk), label+": "+panicked, nil)
+			case vl.Panic != "" || vc.Panic != "" || vl2.Panic != "":
+				chk.Violation("C10|panic-after-refresh-fault|"+kind+"|"+be(disk), label+": "+vl.Panic+vc.Panic+vl2.Panic, nil)
+			case !vl.Rejected():
+				chk.Violation("C10|listed-accepted-after-refresh-fault|"+kind+"|"+be(disk), label+": afterwards the listed certificate is accepted (crl_cdp_strict on)", nil)
+			case !vl2.Rejected():
+				chk.Violation("C10|listed-accepted-after-refresh-fault|"+kind+"|"+be(disk), label+": after one more (fault-free) refresh the listed certificate is accepted", nil)
+			}
+			_ = vc // whether the clean certificate is still accepted depends on whether the implementation could keep the list (C08 / C09 judge that)
+		}
+	}
+	return
+}
+
 // RunC10 is the entry point of the C10 check.
 func RunC10(tier string, args []string) int {
 	if len(args) > 0 && args[0] == "hworker" {
@@ -477,7 +552,7 @@ func RunC10(tier string, args []string) int {
 		"all served CRL variants list the same serials, so only 'is a CRL in force' and 'is the serial listed' enter the oracle",
 	}
 	total := runHWorkers(chk, "C10", tier, 16)
-	faultRuns := c10LoadFaults(chk)
+	faultRuns := c10LoadFaults(chk) + c10RefreshFaults(chk)
 	cov := fw.Coverage{
 		"states":                        total.Stats.States + faultRuns,
 		"transitions":                   total.Stats.Transitions + 3*faultRuns,
